@@ -62,7 +62,24 @@ def field_params(f):
 # The same text is (a) spliced into the real wrapper bodies in wrap64_<f> / wrap32_<f> and
 # (b) emitted on external_body stubs wherever a higher layer calls the wrapper.
 
-def wrapper_contracts(f):
+def wrapper_contracts(f, style="requires"):
+    """style 'requires': well-formedness of the operands is a precondition (u64 wrappers, abstract stubs);
+    style 'conditional': no precondition, the postcondition is conditional on it (u32 wrappers: the fiat routines are
+    total and `PartialEq::eq`, which cannot carry a precondition, calls `sub`).  Under wf() == true both coincide."""
+    c = _wrapper_contracts(f)
+    if style == "conditional":
+        import dataclasses
+        out = {}
+        for k, fn in c.items():
+            if fn.requires and k != "from_montgomery_limbs":
+                out[k] = dataclasses.replace(fn, requires=None, ensures=f"({fn.requires.replace(', ', ' && ')}) ==> ({fn.ensures.replace('r.wf(), ', 'r.wf() && ')})")
+            else:
+                out[k] = fn
+        return out
+    return c
+
+
+def _wrapper_contracts(f):
     P = "@f@_p()"
     return {
         "from_le_limbs": Fn("from_le_limbs", ensures=f"r.wf(), r.val() == limbs_val(limbs@) % {P}", props=("C10", "C11")),
@@ -96,7 +113,8 @@ def wrapper_stubs(f, backend="u64", names=None):
                       "square", "inverse", "add", "sub", "mul", "neg"]
     items = []
     for n in names:
-        items.append(Item(wrapper_file(f, backend), f"impl {F}", [c[n]], mode="stub", proved_in=f"wrap{backend[1:]}_{f}"))
+        both = (f"wrap64_{f}", f"wrap32_{f}") if n != "inverse" else (f"wrap64_{f}",)
+        items.append(Item(wrapper_file(f, backend), f"impl {F}", [c[n]], mode="stub", proved_in=both))
     # constants: stubs need a compilable dummy body
     consts = f"""
 impl {F} {{
